@@ -12,12 +12,21 @@
 //! let _ = broadcast_queue_with::<usize, YieldingWait>(10, YieldingWait::new());
 //! let _ = broadcast_queue_with::<usize, BlockingWait>(10, BlockingWait::new());
 //! ```
+#[cfg(not(multiqueue2_verif))]
 use std::sync::atomic::AtomicUsize;
+#[cfg(multiqueue2_verif)]
+use crate::verif_hooks::AtomicUsize;
 use std::sync::atomic::Ordering::Relaxed;
+#[cfg(not(multiqueue2_verif))]
 use std::thread::yield_now;
+#[cfg(multiqueue2_verif)]
+use crate::verif_hooks::yield_now;
 
 use crate::countedindex::{is_tagged, past, rm_tag};
+#[cfg(not(multiqueue2_verif))]
 extern crate parking_lot;
+#[cfg(multiqueue2_verif)]
+use crate::verif_hooks::pl as parking_lot;
 
 pub const DEFAULT_YIELD_SPINS: usize = 50;
 pub const DEFAULT_TRY_SPINS: usize = 50;
